@@ -25,7 +25,7 @@ def run(idx, rep, tier):
     mirror.r_tournament(idx, rep)
     mirror.r_boxface(idx, rep)
     mods = [x.name for x in idx.lib_modules() if x.name.startswith("distance3d.distance")]
-    degree.r_degree(idx, rep, modules=mods, floor=30)
+    degree.r_degree(idx, rep, modules=mods, floor=20)
     onsegment.r_halfsize(idx, rep, [x.name for x in idx.lib_modules() if x.name.startswith("distance3d.distance")], floor=5)
     ericson.r_ericson(idx, rep)
     misc2.r_dupcond(idx, rep, [m.name for m in idx.lib_modules()], floor=3)
